@@ -176,7 +176,7 @@ LITERAL_FORMS = [
     "let a = [1, 2, 3,];", "let a = {a = 1, b = 2,};", "let a = f(1, 2,);",
 ]
 
-FIELD_NAMES = ["_foo", "_", "__", "a_b", "a-b", "-a", "a-", "9x", "x9", "a.b", "a b", " a", "", "\u00e9", "a\"b", "a\\b", "a\nb", "a\tb", "A", "aB1",
+FIELD_NAMES = ["caf\u00e9", "gr\u00f6\u00dfe", "x\u03bb", "a\u00e9b", "a_\u00e9", "a\u4e2d", "z\U0001F600", "_foo", "_", "__", "a_b", "a-b", "-a", "a-", "9x", "x9", "a.b", "a b", " a", "", "\u00e9", "a\"b", "a\\b", "a\nb", "a\tb", "A", "aB1",
                "NULL", "true", "false", "let", "import", "include", "as", "select", "func", "module", "env", "self", "mod", "item", "in", "is",
                "not", "fail", "assert", "out", "convert", "map", "filter", "reduce", "constraint", "TRACE", "null", "True", "a@b", "a=b", "a,b", "a;b",
                "a//b", "a{b", "a}b", "a(b", "a[b", "a:b", "a::b", "a|b", "a%b", "a$b", "a'b", "\U0001F600"]
